@@ -53,4 +53,104 @@ Inductive reach_via (ins : edge -> list node) (targets : list node) : node -> Pr
 | reach_target t : In t targets -> reach_via ins targets t
 | reach_step x y : reach_via ins targets x -> step_via ins x y -> reach_via ins targets y.
 
+(* ------------------------------------------------------------------ the dirty flags *)
+(* the inputs that matter for dirtiness: the manifest inputs before the order-only block
+   (Edge::is_order_only, with its size_t wrap-around for a stale counter) ... *)
+Definition nonoo_ins (e : edge) : list node :=
+  let ins := ei_ins (g_edge g e) in
+  let noo := ei_noo (g_edge g e) in
+  if Nat.ltb (length ins) noo then ins else firstn (length ins - noo) ins.
+
+(* ... and the recorded deps when they are usable: ImplicitDepLoader::LoadDeps decided from the
+   files alone (the first output's mtime is the one on disk) *)
+Definition spec_load (e : edge) : load_res :=
+  match ei_deps (g_edge g e) with
+  | DepsNone => LdOk []
+  | DepsLog =>
+    match ei_outs (g_edge g e) with
+    | [] => LdErr
+    | o0 :: _ =>
+      match w_dlog w o0 with
+      | None => LdFail
+      | Some (dm, nodes) => if Z.gtb (w_mtime w o0) dm then LdFail else LdOk nodes
+      end
+    end
+  | DepsDepfile =>
+    match ei_outs (g_edge g e) with
+    | [] => LdErr
+    | o0 :: _ =>
+      match w_depfile w e with
+      | DfMissing | DfEmpty => LdFail
+      | DfUnparsable => LdErr
+      | DfParsed [] _ => LdErr
+      | DfParsed (p :: douts) dins =>
+        if negb (Nat.eqb p o0) then LdFail
+        else if forallb (fun o => mem_node o (ei_outs (g_edge g e))) (p :: douts) then LdOk dins
+        else LdErr
+      end
+    end
+  end.
+
+Definition valid_deps (e : edge) : list node :=
+  match spec_load e with LdOk l => l | _ => [] end.
+Definition spec_ins (e : edge) : list node := nonoo_ins e ++ valid_deps e.
+
+(* "n is newer than x": the file's mtime, a missing file counting as 0, looking through phony
+   statements whose output does not exist (Node::UpdatePhonyMtime).  Least fixed point. *)
+Inductive newer_than (x : Z) : node -> Prop :=
+| nt_file n : w_mtime w n <> 0 -> x < w_mtime w n -> newer_than x n
+| nt_missing n : w_mtime w n = 0 -> x < 0 -> newer_than x n
+| nt_phony n e i :
+    w_mtime w n = 0 -> g_producer g n = Some e -> ei_phony (g_edge g e) = true ->
+    In i (nonoo_ins e) -> newer_than x i -> newer_than x n.
+
+Definition used_restat (e : edge) (o : node) : bool :=
+  ei_restat (g_edge g e) && match w_blog w o with Some _ => true | None => false end.
+
+(* why output [o] of a non-phony statement [e] is out of date.
+   Independent of the inputs: missing; command line changed (not for generator rules); never
+   recorded (not for generator rules). *)
+Definition base_reason (e : edge) (o : node) : Prop :=
+  w_mtime w o = 0 \/
+  match w_blog w o with
+  | Some (h, _) => ei_generator (g_edge g e) = false /\ h <> ei_hash (g_edge g e)
+  | None => ei_generator (g_edge g e) = false
+  end.
+(* Given "some input is newer than": the output is older than an input (unless a restat rule
+   with a log entry); the recorded mtime is older than an input. *)
+Definition time_reason (N : Z -> Prop) (e : edge) (o : node) : Prop :=
+  (used_restat e o = false /\ N (w_mtime w o)) \/
+  match w_blog w o with
+  | Some (_, m) => N m
+  | None => False
+  end.
+Definition out_reason (N : Z -> Prop) (e : edge) (o : node) : Prop :=
+  base_reason e o \/ time_reason N e o.
+
+(* the least set of nodes that have to be (re)made *)
+Inductive must_dirty : node -> Prop :=
+| md_leaf n :
+    g_producer g n = None -> w_mtime w n = 0 -> must_dirty n
+| md_input n e i :
+    g_producer g n = Some e -> In i (spec_ins e) -> must_dirty i -> must_dirty n
+| md_phony n e o :
+    g_producer g n = Some e -> ei_phony (g_edge g e) = true ->
+    ei_ins (g_edge g e) = [] -> ei_vals (g_edge g e) = [] ->
+    In o (ei_outs (g_edge g e)) -> w_mtime w o = 0 -> must_dirty n
+| md_self n e o :
+    g_producer g n = Some e -> ei_phony (g_edge g e) = false ->
+    In o (ei_outs (g_edge g e)) ->
+    out_reason (fun x => exists i, In i (spec_ins e) /\ newer_than x i) e o -> must_dirty n
+| md_deps n e :
+    g_producer g n = Some e -> spec_load e = LdFail -> must_dirty n.
+
+(* well-formedness the specification theorem needs (true of every parsed manifest):
+   outputs know their producer; statements with deps are not phony and their order-only
+   counter is within the vector *)
+Definition wf_spec : Prop :=
+  (forall e o, In o (ei_outs (g_edge g e)) -> g_producer g o = Some e) /\
+  (forall e, ei_deps (g_edge g e) <> DepsNone ->
+             ei_phony (g_edge g e) = false /\
+             (ei_noo (g_edge g e) <= length (ei_ins (g_edge g e)))%nat).
+
 End Spec.
